@@ -553,5 +553,7 @@ func Harness_E_C15() {
 	a := Layout(in.src, in.opts...)
 	b := Layout(in.src, in.opts...)
 	vhReach("returned")
-	vhSameLayout(a, b, "second-call")
+	if in.p1 != 2 { // the explicitly non-deterministic greedy option aside
+		vhSameLayout(a, b, "second-call")
+	}
 }
